@@ -1089,7 +1089,46 @@ class Summariser:
             for x in ast.walk(n):
                 if isinstance(x, ast.Name) and isinstance(x.ctx, ast.Store):
                     names.add(x.id)
-        return names
+        return names - self._exit_flags(body)
+
+    def _exit_flags(self, body):
+        """Names whose every assignment in the loop body is a plain `name = expr` directly followed by leaving the loop (break / return / raise):
+        at the start of every iteration such a name still has the value it had before the loop (`found = True; break`), so it is not loop-carried."""
+        good, bad = set(), set()
+
+        def scan(stmts):
+            for i, st_ in enumerate(stmts):
+                if isinstance(st_, ast.Assign) and len(st_.targets) == 1 and isinstance(st_.targets[0], ast.Name):
+                    nxt = stmts[i + 1] if i + 1 < len(stmts) else None
+                    (good if isinstance(nxt, (ast.Break, ast.Return, ast.Raise)) else bad).add(st_.targets[0].id)
+                    for x in ast.walk(st_.value):
+                        if isinstance(x, ast.NamedExpr):
+                            bad.add(x.target.id)
+                    continue
+                if isinstance(st_, (ast.FunctionDef, ast.ClassDef, ast.Lambda)):
+                    continue
+                # any other binding form (augmented, tuple targets, for targets, with ... as, walrus, except ... as) is an ordinary loop-carried store
+                for x in ast.walk(st_) if not isinstance(st_, (ast.If, ast.Try, ast.With, ast.For, ast.While)) else []:
+                    if isinstance(x, ast.Name) and isinstance(x.ctx, ast.Store):
+                        bad.add(x.id)
+                if isinstance(st_, (ast.If,)):
+                    for x in ast.walk(st_.test):
+                        if isinstance(x, ast.NamedExpr):
+                            bad.add(x.target.id)
+                    scan(st_.body); scan(st_.orelse)
+                elif isinstance(st_, ast.Try):
+                    scan(st_.body); scan(st_.orelse); scan(st_.finalbody)
+                    for h in st_.handlers:
+                        if h.name:
+                            bad.add(h.name)
+                        scan(h.body)
+                elif isinstance(st_, (ast.With, ast.For, ast.While)):
+                    # nested loops and with-blocks: everything stored inside is treated as an ordinary store
+                    for x in ast.walk(st_):
+                        if isinstance(x, ast.Name) and isinstance(x.ctx, ast.Store):
+                            bad.add(x.id)
+        scan(body)
+        return good - bad
 
     def _havoc_heap(self, body, st, lid):
         """Attributes stored inside a loop body are loop-carried."""
